@@ -1,4 +1,4 @@
-#!/usr/bin/env python3
+#!/venv/bin/python
 """Generate /verif/MANIFEST.json from the table below and validate it."""
 import json
 import os
@@ -26,6 +26,23 @@ CHECKS = {
         design="DESIGN.md §3 C13",
     ),
 }
+
+CHECKS["C03"] = dict(
+    level="exploration",
+    engine="simsched",
+    technique="property-based testing with generated process schedules on a deterministic simulation of multiprocessing; oracle = reference item set (RefPyramid leaves / all positions / inputs) as a multiset + termination/worker-exit invariants; each leaf's geometry vs RefToast",
+    text="Leaf visits, pyramid-wide transforms and multi-image tiling run their real producer/worker code on simulated Queue/Event/Process under generated interleavings (feeder flushes, receive time-outs, shutdown signal). Exactly-once delivery, own geometry, worker exit and termination held on everything explored after the fix of the lost-last-item race that this check found.",
+    note="Trusts Engine A's model of the primitives and RefPyramid/RefToast; items are compared as multisets against the serial item set.",
+    design="DESIGN.md §3 C03, §2.2",
+)
+CHECKS["C19"] = dict(
+    level="exploration",
+    engine="simsched",
+    technique="fault injection (one failing item at a generated position) x generated schedules on the simulated multiprocessing; oracle = the public call raises in the caller (no normal return, structural hang detection)",
+    text="For walk, leaf visits and transforms, with one generated failing item, every worker count 1..8 and generated interleavings: the call raised in the caller in every explored case (after the fix that this check motivated).",
+    note="Trusts Engine A (worker exception -> exit code 1, as multiprocessing.Process) and the structural hang oracle (dead-lock, or a quiescent state in which only time-outs can fire for 50 x processes steps).",
+    design="DESIGN.md §3 C19",
+)
 
 NOT_APPLICABLE = {}
 
